@@ -411,3 +411,29 @@ def write_replay(prop, name, obj):
     with open(p, "w") as f:
         json.dump(obj, f, indent=1, sort_keys=True)
     return p
+
+
+# ------------------------------------------------------------------ parallel scenarios
+def parallel_map(fn, items, workers=None):
+    """Run fn(item) for every item in forked worker processes (results in order).
+    fn must be a module-level function; exceptions are returned as {'error': text}."""
+    import multiprocessing as mp
+    import traceback as tb
+    workers = workers or NCPU
+    if not items:
+        return []
+    ctx = mp.get_context("fork")
+    with ctx.Pool(min(workers, len(items))) as pool:
+        return pool.map(_guard(fn), items, chunksize=1)
+
+
+class _guard:
+    def __init__(self, fn):
+        self.fn = fn
+
+    def __call__(self, item):
+        import traceback as tb
+        try:
+            return self.fn(item)
+        except Exception:
+            return {"error": tb.format_exc()}
